@@ -98,10 +98,12 @@ func (m *ResultModifiedResponse) CloneForReq(
 ) (clone *ResultModifiedResponse) {
 	msg := c.Clone(m.Msg)
 
-	// TODO(a.garipov): This will become invalid if Msg ever contains a
-	// non-success response, which is not the case currently.  If that happens,
-	// find a better way to cache as much of the response as possible.
+	// Keep the response code, since [dns.Msg.SetReply] resets it, and Msg can
+	// be a non-success response, for example when the blocking mode is
+	// NXDOMAIN or REFUSED.
+	rcode := msg.Rcode
 	msg.SetReply(req)
+	msg.Rcode = rcode
 
 	return &ResultModifiedResponse{
 		Msg:  msg,
